@@ -37,4 +37,82 @@ theorem provided_not_variables (key : Str) (pid : Nat) :
   subst h
   rfl
 
+/-! ### the provided data stays alive while the provider's body renders (after fix 2193c9f) -/
+
+/-- the provider `pid` holds its own reference and its data is in the cache -/
+def Alive (pid : Nat) (w : World) : Prop :=
+  alHas pid w.provideCache = true ∧ ∃ refs, alGet pid w.provideRefs = some refs ∧ pid ∈ refs
+
+/-- **No component that finishes inside the body can delete the provider's data.**  While the
+provider holds its own reference, unregistering any other id — over any list of provider ids, in
+any world — keeps the provider's cache entry and its self-reference; in particular a later
+`inject()` of a sibling finds the entry. -/
+theorem provider_survives_unregister (pid rid : Nat) (h : rid ≠ pid) (ps : List Nat) (w : World)
+    (ha : Alive pid w) : Alive pid (unregisterLoopW rid ps w).2 := by
+  induction ps generalizing w with
+  | nil => simpa [unregisterLoopW] using ha
+  | cons p ps ih =>
+    unfold unregisterLoopW
+    cases hg : alGet p w.provideRefs with
+    | none => simpa using ha
+    | some refs =>
+      dsimp only
+      by_cases hc : (!refs.contains rid) = true
+      · rw [if_pos hc]
+        exact ih w ha
+      · rw [if_neg hc]
+        obtain ⟨hcache, r0, hr0, hmem⟩ := ha
+        by_cases hp : p = pid
+        · -- the provider itself: its own reference stays, so the set is not empty
+          subst hp
+          have hrefs : refs = r0 := by rw [hg] at hr0; exact Option.some.inj hr0
+          subst hrefs
+          have hmem' : p ∈ refs.filter (· ≠ rid) := by
+            simp [List.mem_filter, hmem, Ne.symm h]
+          have hne : (refs.filter (· ≠ rid)).isEmpty = false := by
+            cases hf : refs.filter (· ≠ rid) with
+            | nil => rw [hf] at hmem'; cases hmem'
+            | cons a b => rfl
+          rw [if_neg (by rw [hne]; exact Bool.false_ne_true)]
+          apply ih
+          exact ⟨hcache, _, alGet_alSet_same _ _ _, hmem'⟩
+        · -- another provider: whatever happens to it does not touch `pid`
+          have hA1 : Alive pid { w with provideRefs := alSet p (refs.filter (· ≠ rid)) w.provideRefs } :=
+            ⟨hcache, r0, by simpa [alGet_alSet_ne _ _ _ _ hp] using hr0, hmem⟩
+          by_cases he : (refs.filter (· ≠ rid)).isEmpty = true
+          · rw [if_pos he]
+            unfold popProvideCacheW
+            by_cases hh : alHas p w.provideCache = true
+            · simp only [hh, if_true]
+              apply ih
+              refine ⟨?_, r0, ?_, hmem⟩
+              · simpa [alHas_alDel_ne _ _ _ hp] using hcache
+              · simpa [alGet_alDel_ne _ _ _ hp, alGet_alSet_ne _ _ _ _ hp] using hr0
+            · simp only [hh]
+              exact hA1
+          · rw [if_neg he]
+            exact ih _ hA1
+
+/-- the same for the whole `unregister_provide_reference` -/
+theorem provider_survives_component_finish (pid rid : Nat) (h : rid ≠ pid) (w : World) (ha : Alive pid w) :
+    Alive pid (unregisterRefW rid w).2 := by
+  unfold unregisterRefW
+  split
+  · exact ha
+  · exact provider_survives_unregister pid rid h _ _ ha
+
+/-- entering a provider establishes `Alive` -/
+theorem enter_provider_alive (pid : Nat) (payload : Layer) (w : World) :
+    Alive pid (holdSelfW pid { w with provideCache := alSet pid payload w.provideCache }) := by
+  unfold Alive holdSelfW
+  refine ⟨by simp [alHas, alGet_alSet_same], _, alGet_alSet_same _ _ _, ?_⟩
+  split <;> simp_all
+
+/-- non-vacuity, and the scenario of the repaired defect: a component (id 2) registers under the
+page-level provider (id 1) and finishes; the provider's data is still there for its sibling -/
+example :
+    let w0 : World := holdSelfW 1 { ({} : World) with provideCache := [(1, [])] }
+    let ctx : Ctx := [[], [(injectPrefix ++ "pk".toList, .provRef 1)]]
+    alHas 1 (unregisterRefW 2 (registerRefW ctx 2 w0)).2.provideCache = true := by decide
+
 end Djc.Props.C05
